@@ -204,7 +204,32 @@ var checkC12String = register("C12/string", func(c strCase) string {
 			return fmt.Sprintf("Decode(%s) returned object-nil=%v with error %v", quoteShort(c.Input), isNil, err)
 		}
 		// receiver left behind (or nil receiver): observers must not panic; invalid => error/0
-		return probeViews(what+" receiver", views3(rb, rt, re, lv))
+		if m := probeViews(what+" receiver", views3(rb, rt, re, lv)); m != "" {
+			return m
+		}
+		// the same decoder asked again (whatever it answers: no panic, object xor error)
+		for _, again := range []string{s, "CVSS:3.1/AV:N/AC:L/PR:N/UI:N/S:U/C:H/I:H/A:H", ""} {
+			var nilObj bool
+			var err2 error
+			switch lv {
+			case spec.Base:
+				var o *m3.Base
+				o, err2 = rb.Decode(again)
+				nilObj = o == nil
+			case spec.Temporal:
+				var o *m3.Temporal
+				o, err2 = rt.Decode(again)
+				nilObj = o == nil
+			default:
+				var o *m3.Environmental
+				o, err2 = re.Decode(again)
+				nilObj = o == nil
+			}
+			if nilObj == (err2 == nil) {
+				return fmt.Sprintf("%s: a further Decode(%s) on the same decoder returned object-nil=%v with error %v", what, quoteShort([]byte(again)), nilObj, err2)
+			}
+		}
+		return ""
 	}
 	var rb *m2.Base
 	var rt *m2.Temporal
@@ -252,7 +277,31 @@ var checkC12String = register("C12/string", func(c strCase) string {
 	if isNil == (err == nil) {
 		return fmt.Sprintf("Decode(%s) returned object-nil=%v with error %v", quoteShort(c.Input), isNil, err)
 	}
-	return probeViews(what+" receiver", views2(rb, rt, re, lv))
+	if m := probeViews(what+" receiver", views2(rb, rt, re, lv)); m != "" {
+		return m
+	}
+	for _, again := range []string{s, "AV:N/AC:L/Au:N/C:P/I:P/A:C", ""} {
+		var nilObj bool
+		var err2 error
+		switch lv {
+		case spec.Base:
+			var o *m2.Base
+			o, err2 = rb.Decode(again)
+			nilObj = o == nil
+		case spec.Temporal:
+			var o *m2.Temporal
+			o, err2 = rt.Decode(again)
+			nilObj = o == nil
+		default:
+			var o *m2.Environmental
+			o, err2 = re.Decode(again)
+			nilObj = o == nil
+		}
+		if nilObj == (err2 == nil) {
+			return fmt.Sprintf("%s: a further Decode(%s) on the same decoder returned object-nil=%v with error %v", what, quoteShort([]byte(again)), nilObj, err2)
+		}
+	}
+	return ""
 })
 
 // ---- (c): nil, fresh and field-reset objects -----------------------------------------------
@@ -266,6 +315,8 @@ type objCase struct {
 	Vector     string `json:"vector,omitempty"`
 	Reset      string `json:"reset_field,omitempty"`
 	ResetLevel int    `json:"reset_field_level,omitempty"`
+	// QueriedFirst: every observer is called on the valid decoded object before the reset
+	QueriedFirst bool `json:"queried_before_reset,omitempty"`
 }
 
 func resetField(ptr any, name string) bool {
@@ -301,6 +352,9 @@ var checkC12Obj = register("C12/object", func(c objCase) string {
 				return "" // not an accepted vector: outside this case's domain
 			}
 			b, t, e = o.B, o.T, o.E
+			if c.QueriedFirst { // the valid object is queried completely before the field is reset
+				snapViews(views3(b, t, e, lv))
+			}
 			var target any
 			switch spec.Level(c.ResetLevel) {
 			case spec.Base:
@@ -338,6 +392,9 @@ var checkC12Obj = register("C12/object", func(c objCase) string {
 			return ""
 		}
 		b, t, e = o.B, o.T, o.E
+		if c.QueriedFirst {
+			snapViews(views2(b, t, e, lv))
+		}
 		var target any
 		switch spec.Level(c.ResetLevel) {
 		case spec.Base:
@@ -408,7 +465,7 @@ func longInputs() []string {
 func TestC12(t *testing.T) {
 	c := begin(t, "C12")
 	defer c.end()
-	c.rec.F.Rule = "strings: the generator mix of C07/C08 for both versions (valid, mutated, single-defect, arbitrary unicode / bytes / alphabet / token soup) at all six decoders through constructor and nil receiver: no panic, exactly one of (object, error) non-nil, then every observer (Score, Severity, GetError, Encode, String, BaseMetrics, TemporalMetrics and the chains through returned sub-objects) on the returned object and on the receiver left behind; plus the deterministic hostile shapes of C07 (floods around power-of-two counts, boundary-length tokens, look-alike characters, dense multi-byte text); thorough adds eight constructed 1-4 MiB inputs and native fuzzing. objects: nil receivers and fresh constructor results of all six types, and the complete one-field-reset enumeration (every exported field of every level set to its unknown/invalid constant) over generated accepted vectors: no panic, and where the version or a metric of the queried level (v2: of a present group) is unknown/invalid: GetError != nil, Encode returns an error, Score == 0. Non-trivial = failed decode leaving a partially filled receiver, or a reset / nil / fresh object; distinct by hash of the case."
+	c.rec.F.Rule = "strings: the generator mix of C07/C08 for both versions (valid, mutated, single-defect, arbitrary unicode / bytes / alphabet / token soup) at all six decoders through constructor and nil receiver: no panic, exactly one of (object, error) non-nil, then every observer (Score, Severity, GetError, Encode, String, BaseMetrics, TemporalMetrics and the chains through returned sub-objects) on the returned object and on the receiver left behind, then three further Decode calls on that same decoder (no panic, object xor error — nothing else is asserted about a re-used decoder); plus the deterministic hostile shapes of C07 (floods around power-of-two counts, boundary-length tokens, look-alike characters, dense multi-byte text); thorough adds eight constructed 1-4 MiB inputs and native fuzzing. objects: nil receivers and fresh constructor results of all six types, and the complete one-field-reset enumeration (every exported field of every level set to its unknown/invalid constant, with and without a complete round of queries on the still valid object beforehand) over generated accepted vectors: no panic, and where the version or a metric of the queried level (v2: of a present group) is unknown/invalid: GetError != nil, Encode returns an error, Score == 0. Non-trivial = failed decode leaving a partially filled receiver, or a reset / nil / fresh object; distinct by hash of the case."
 	c.rec.F.Assumptions = []string{"v2 IsEmpty() on a nil receiver is not among the queries the property lists and is not called on nil receivers", "zero value of every exported enumeration field is its unknown/invalid constant"}
 
 	// ---- nil and fresh objects ------------------------------------------------------------------
@@ -455,7 +512,7 @@ func TestC12(t *testing.T) {
 			vec = gen.ValidV2(lv).Draw(rt, "vector")
 		}
 		for _, fl := range fieldsOf(ver, lv) {
-			cs := objCase{Ver: ver, Level: int(lv), Kind: "reset", Vector: vec.String(), Reset: fl[0].(string), ResetLevel: int(fl[1].(spec.Level))}
+			cs := objCase{Ver: ver, Level: int(lv), Kind: "reset", Vector: vec.String(), Reset: fl[0].(string), ResetLevel: int(fl[1].(spec.Level)), QueriedFirst: rapid.Bool().Draw(rt, "queriedfirst")}
 			c.rec.Case("reset", fmt.Sprintf("%v", cs), true, fmt.Sprintf("reset:v%d:%v", ver, fl[1]))
 			if c.rec.SampleCount() < 4 {
 				c.rec.Sample(cs)
